@@ -3482,5 +3482,6 @@ func genRegion(p *packages.Package, e entry) (string, error) {
 		}
 		params = append(params[:sp.at], append(fps, params[sp.at:]...)...)
 	}
+	params = fc.k01dec2RegionFuel(params) // wp k01dec2 (ext_k01dec2.go): a region with a `for cond` loop / fuelled callee takes `(fuel : Nat)`
 	return fc.emit(e.pkg+"."+fname+" (statements "+rng+")", params, body), nil
 }
